@@ -341,6 +341,13 @@ func (r *Run) Apply(op Op) *Step {
 		st.V = classify(err)
 	}()
 	st.LogTo = len(r.RT.Log)
+	// instance names count accepted uses only: a rejected registration must
+	// leave no trace, so re-registering the same function later is the same
+	// function again (and differential runs with/without the rejected call
+	// name everything alike).
+	if !st.V.OK && op.Raw == nil && op.Fn != nil && (op.Kind == OpProvide || op.Kind == OpDecorate) && st.Inst != "" {
+		r.uses[op.Fn.ID]--
+	}
 	// the model follows the implementation's verdict
 	if st.V.OK && op.Raw == nil {
 		switch op.Kind {
